@@ -111,6 +111,12 @@ func Run(r *core.Run) {
 		`["dweb:/ipfs/x","https://a.example/"]`, `{"uri":"file:///x","accept":["didcomm/v2"]}`} {
 		docs = append(docs, `{"publicKey":[`+k[0]+`],"service":[{"id":"e`+fmt.Sprint(ei)+`","type":"T","serviceEndpoint":`+ep+`}]}`)
 	}
+	// key and service ids of the greatest allowed length (50 characters) and one below it
+	for _, n := range []int{49, 50} {
+		long := strings.Repeat("k", n)
+		docs = append(docs, `{"publicKey":[`+strings.Replace(k[0], `"id":"`, `"id":"`+long[:n-2], 1)+`]}`,
+			`{"publicKey":[`+k[0]+`],"service":[{"id":"`+long+`","type":"T","serviceEndpoint":"https://long.example/"}]}`)
+	}
 	// documents without keys as well
 	docs = append(docs, `{"service":[`+s[0]+`]}`, `{"alsoKnownAs":[`+a[0]+`]}`, `{"scalar":"v"}`, `{}`)
 	r.Extra["documents"] = len(docs)
